@@ -229,7 +229,10 @@ Definition loom_ranks (st : state) (l : name) : list Z := map (fun p => rank_of 
 (* loom_set_rank_min *)
 Definition rank_enabled st l : bool := existsb (fun r => 0 <=? r) (loom_ranks st l).
 Definition rank_incomplete st l : bool := rank_enabled st l && existsb (fun r => r <? 0) (loom_ranks st l).
-Definition rank_min st l : Z := fold_right Z.min INT_MAX (loom_ranks st l).
+(* rank_min starts at INT_MAX and is lowered by every process; a rank is an int
+   below nranks <= INT_MAX, so for a non-empty list this is the list minimum *)
+Definition rank_min st l : Z :=
+  match loom_ranks st l with [] => INT_MAX | r :: rs => fold_right Z.min r rs end.
 
 Definition sproc := (Z * Z * list Z)%type.                      (* pid, appid, tids *)
 Definition sloom := (name * list sproc * list (Z * Z))%type.    (* name, procs, cpus (index, phyid) *)
